@@ -100,6 +100,11 @@ impl Dag {
         Ok(())
     }
 
+    #[cfg(pnordahl_monorail_verif)]
+    pub(crate) fn verif_adj_list(&self) -> &Vec<Vec<usize>> {
+        &self.adj_list
+    }
+
     pub(crate) fn get_node_by_label(&self, label: &str) -> Result<usize, GraphError> {
         self.label2node
             .get(label)
